@@ -5,12 +5,12 @@ Import ListNotations.
 Open Scope Z_scope.
 
 Lemma float_ok_pointwise (m b k1 k2 : Z) (fmt raw : N) :
-  In (m, b) pairs -> -8 <= k1 <= 7 -> -8 <= k2 <= 7 -> (fmt < 3)%N -> (raw < 256)%N ->
+  In (m, b) pairs -> In k1 ks -> In k2 ks -> (fmt < 3)%N -> (raw < 256)%N ->
   float_ok (mkSensor fmt 0 m b k1 k2) raw = true.
 Proof. exact (sweep_gen_sound float_ok sweep_all_true m b k1 k2 fmt raw). Qed.
 
 Lemma float_partial (m b k1 k2 : Z) (fmt raw : N) :
-  In (m, b) pairs -> -8 <= k1 <= 7 -> -8 <= k2 <= 7 -> (fmt < 3)%N -> (raw < 256)%N ->
+  In (m, b) pairs -> In k1 ks -> In k2 ks -> (fmt < 3)%N -> (raw < 256)%N ->
   let s := mkSensor fmt 0 m b k1 k2 in
   exists v, Q_of_float (convert_raw_F s raw) = Some v /\
             close_to_formula s (signed_of fmt raw) v /\
